@@ -489,9 +489,23 @@ def dup_cases():
     return out
 
 
+class DesignAssertion(Exception):
+    """the exception of the rtl_assert in the 'rtl_assert' MISC design"""
+
+
 def build_misc(d):
     k = d['kind']
     w = d.get('w', 3)
+    if k == 'rtl_assert':
+        a, b = pyrtl.Input(w, 'a'), pyrtl.Input(w, 'b')
+        r = pyrtl.Register(w, 'r')
+        r.next <<= a ^ r
+        o = pyrtl.Output(w, 'o')
+        o <<= r & b
+        ok = pyrtl.WireVector(1, 'ok')
+        ok <<= ~((a == b) & (r == a))
+        pyrtl.rtl_assert(ok, DesignAssertion('a == b == r'))
+        return pyrtl.working_block()
     if k == 'dup_regs':
         # registers that load the very same wire but start from different values: not duplicates of one another
         a = pyrtl.Input(w, 'a')
